@@ -502,6 +502,16 @@ MAGNITUDE["C10"] += (" Names that are glob / regex / format patterns next "
                      "to names they would match, NFC vs NFD, NUL.")
 
 
+_ST = (" STORIES: every history to depth 2 (thorough: 3, time-capped) over a "
+       "107-operation alphabet mixing all features on one medium IR, whole-IR "
+       "oracle after every transition and on a deep copy and a save+load copy "
+       "of every expanded state (mc/checks/story.py); the same oracle over all "
+       "5160 IRs of the shared case space as built and as loaded.")
+for _p in ("C01", "C03", "C04", "C05", "C06", "C10", "C11", "C12", "C13",
+           "C18"):
+    MAGNITUDE[_p] = MAGNITUDE[_p] + _ST
+
+
 def build():
     checks = []
     na = []
